@@ -376,7 +376,10 @@ impl SvgElement {
 
         let mut p = Position::from(self as &SvgElement);
         if self.name == "use" {
-            if let Some(href) = self.get_attr("href") {
+            if let Some(href) = self
+                .local_href()?
+                .filter(|href| extract_elref(href).is_ok())
+            {
                 let elref = href.parse()?;
                 let el = ctx
                     .get_element(&elref)
@@ -683,6 +686,16 @@ impl SvgElement {
         }
     }
 
+    /// The `href` of a `use` / `reuse` element; `use` elements may use the older
+    /// (SVG 1.1) `xlink:href` spelling instead.
+    fn local_href(&self) -> Result<Option<String>> {
+        let mut href = self.get_attr("href");
+        if href.is_none() && self.name == "use" {
+            href = self.get_attr("xlink:href");
+        }
+        Ok(href)
+    }
+
     pub fn get_target_element(&self, ctx: &impl ElementMap) -> Result<SvgElement> {
         // TODO: this uses OrderIndex to uniquely identify elements, but that's a bit
         // of a hack. In particular using `id` or `href` is insufficient, as doesn't
@@ -697,8 +710,13 @@ impl SvgElement {
 
         while element.name == "use" || element.name == "reuse" {
             let href = element
-                .get_attr("href")
+                .local_href()?
                 .ok_or_else(|| SvgdxError::MissingAttribute("href".to_owned()))?;
+            if element.name == "use" && extract_elref(&href).is_err() {
+                // not an element reference (e.g. a reference into another
+                // document): nothing is known about the target
+                break;
+            }
             let elref = href.parse()?;
             if let Some(el) = ctx.get_element(&elref) {
                 if seen.contains(&el.order_index) {
@@ -733,6 +751,10 @@ impl SvgElement {
         match self.name.as_str() {
             "use" | "reuse" => {
                 let target_el = self.get_target_element(ctx)?;
+                if target_el.name == "use" {
+                    // target could not be followed (not a local reference)
+                    return Ok(None);
+                }
                 // Take a _copy_ of the target element and evaluate attributes
                 // (should really only evaluate those which contribute to size...)
                 // This allows 'reuse' attributes which appear as vars within the
